@@ -402,8 +402,23 @@ def one_scenario(run, seed, idx, mods, mode):
                         route = "score_all_pairs:after-reset"
                 ubis = [np.array(u) for u in ix.ubis]
             else:
+                om_col = r.uniform(-180, 180, len(gv))
+                # do_index sets minpks = frac x (multiplicity x covered omega range / 180).  The simulated grains supply
+                # every reflection once = what a half-turn scan gives.  Half of the do_index runs therefore say so in the
+                # omega column (a 180 degree scan starting anywhere, also one that passes through 0 = 360, as motor positions
+                # -90..90 or 270..450) and ask for twice the fraction; the others keep the full turn and the small fraction.
+                rs = rng(seed, "C08", "scan", mode, idx)
+                half_turn = route in ("do_index", "do_index2") and bool(rs.random() < 0.6)
+                if half_turn:
+                    start = float([-90.0, 270.0, -45.0, 300.0, 0.0, -180.0, 135.0, float(rs.uniform(-360, 360))][int(rs.integers(8))])
+                    om_col = start + rs.uniform(0, 180, len(gv))
+                    run.count("do_index_half_turn_scans")
+                    if (np.floor(om_col / 360.0).min() != np.floor(om_col / 360.0).max()):
+                        run.count("do_index_half_turn_scans_through_zero")
+                        run.count("do_index_half_turn_scans_through_zero:" + mode)
+                    desc["omega_scan"] = [start, start + 180.0]
                 cf = columnfile.colfile_from_dict({"gx": gv[:, 0].copy(), "gy": gv[:, 1].copy(), "gz": gv[:, 2].copy(),
-                                                   "omega": r.uniform(-180, 180, len(gv))})
+                                                   "omega": om_col})
                 pr = {"cell__a": cell[0], "cell__b": cell[1], "cell__c": cell[2], "cell_alpha": cell[3],
                       "cell_beta": cell[4], "cell_gamma": cell[5], "cell_lattice_[P,A,B,C,I,F,R]": sym,
                       "wavelength": wavelength}
@@ -417,6 +432,8 @@ def one_scenario(run, seed, idx, mods, mode):
                     uc.makerings(dsmax, ds_tol)
                     nring = len(uc.ringds)
                     tols, fr = ((hkl_tol,), (0.45,)) if route == "do_index" else ((hkl_tol, tol2), (0.6, 0.4))
+                    if half_turn:
+                        fr = tuple(2 * f for f in fr) if route == "do_index" else (0.95, 0.8)
                     res = indexing.do_index(cf, dstol=ds_tol, hkl_tols=tols, fracs=fr, cosine_tol=cosine_tol,
                                             max_grains=100, forgen=list(range(min(nring, 4))), foridx=list(range(nring)))
                     grains, ix = res
@@ -521,4 +538,5 @@ def check(run, replay=None):
     run.require_counter("single_ring_scenarios", 3)
     run.require_counter("reset_histories", 2)
     run.require_counter("multi_pass_runs", 3)
+    run.require_counter("do_index_half_turn_scans_through_zero:ideal", 1)
     run.require_counter("cell_bound_evaluated", 20)
